@@ -36,11 +36,48 @@ fn reach(env: &TypeEnv, t: &Type, used: &mut BTreeSet<String>) {
     }
 }
 
-fn same(env: &TypeEnv, a: &Type, b: &Type) -> bool {
-    let (env, a, b) = (env.clone(), a.clone(), b.clone());
+/// the derive macro ties recursive types with knots (`TypeInner::Knot`, resolved through a thread-local table); the
+/// printer of /repo cannot show a knot in method position and `equal` formats its context eagerly, so the knots are
+/// first turned into named definitions of an environment of their own
+fn unknot(t: &Type, env: &mut TypeEnv) -> Type {
+    use candid::types::internal::{find_type, Field, Function};
+    use TypeInner::*;
+    match t.as_ref() {
+        Knot(id) => {
+            let name = format!("{id}");
+            if !env.0.contains_key(&name) {
+                if let Some(d) = find_type(id) {
+                    env.0.insert(name.clone(), TypeInner::Empty.into());
+                    let body = unknot(&d, env);
+                    env.0.insert(name.clone(), body);
+                }
+            }
+            Var(name).into()
+        }
+        Opt(x) => Opt(unknot(x, env)).into(),
+        Vec(x) => Vec(unknot(x, env)).into(),
+        Record(fs) => Record(fs.iter().map(|f| Field { id: f.id.clone(), ty: unknot(&f.ty, env) }).collect()).into(),
+        Variant(fs) => Variant(fs.iter().map(|f| Field { id: f.id.clone(), ty: unknot(&f.ty, env) }).collect()).into(),
+        Func(f) => Func(Function {
+            modes: f.modes.clone(),
+            args: f.args.iter().map(|x| unknot(x, env)).collect(),
+            rets: f.rets.iter().map(|x| unknot(x, env)).collect(),
+        })
+        .into(),
+        Service(ms) => Service(ms.iter().map(|(n, x)| (n.clone(), unknot(x, env))).collect()).into(),
+        Class(a, x) => Class(a.iter().map(|y| unknot(y, env)).collect(), unknot(x, env)).into(),
+        _ => t.clone(),
+    }
+}
+
+/// `a` lives in `env`, `b` in `env_b`
+fn same(env: &TypeEnv, a: &Type, env_b: &TypeEnv, b: &Type) -> bool {
+    let (env, a, env_b, b) = (env.clone(), a.clone(), env_b.clone(), b.clone());
     std::panic::catch_unwind(move || {
+        let mut merged = env.clone();
+        let b = merged.merge_type(env_b, b);
         let mut g = Gamma::new();
-        equal(&mut g, &env, &a, &b).is_ok()
+        equal(&mut g, &merged, &a, &b).is_ok()
     })
     .unwrap_or(false)
 }
@@ -50,13 +87,14 @@ fn one_line(s: String) -> String {
 }
 
 fn main() {
-    std::panic::set_hook(Box::new(|_| {}));
     for p in all() {
         let verdict = (|| -> Result<(), String> {
             let ast = p.src.parse::<candid_parser::IDLProg>().map_err(|e| format!("source does not parse: {e}"))?;
             let mut env = TypeEnv::new();
             let actor = candid_parser::check_prog(&mut env, &ast).map_err(|e| format!("source does not check: {e}"))?;
-            let items = std::panic::catch_unwind(|| (p.items)()).map_err(|_| "the derive macro's ty() panics".to_string())?;
+            let raw = std::panic::catch_unwind(|| (p.items)()).map_err(|_| "the derive macro's ty() panics".to_string())?;
+            let mut env_items = TypeEnv::new();
+            let items: Vec<(&'static str, Type)> = raw.iter().map(|(n, t)| (*n, unknot(t, &mut env_items))).collect();
             let mut used = BTreeSet::new();
             match &actor {
                 Some(a) => reach(&env, a, &mut used),
@@ -64,9 +102,15 @@ fn main() {
             }
             for name in env.0.keys().filter(|k| used.contains(*k)) {
                 let var: Type = TypeInner::Var(name.clone()).into();
-                if !items.iter().any(|(_, t)| same(&env, &var, t)) {
+                if !items.iter().any(|(_, t)| same(&env, &var, &env_items, t)) {
                     let def = env.find_type(name).map(|d| d.to_string()).unwrap_or_default();
-                    let cands: Vec<String> = items.iter().map(|(n, t)| format!("{n} = {t}")).collect();
+                    let cands: Vec<String> = items
+                        .iter()
+                        .map(|(n, t)| {
+                            let (n, t) = (n.to_string(), t.clone());
+                            std::panic::catch_unwind(move || format!("{n} = {t}")).unwrap_or_else(|_| "<unprintable>".to_string())
+                        })
+                        .collect();
                     return Err(one_line(format!("no emitted item has a derived type equal to the definition {name} = {def} ; derived: {}", cands.join(" ; "))));
                 }
             }
